@@ -213,6 +213,11 @@ func (p *stubObject) OnTerminate() {
 	p.signal.OnTerminate()
 }
 func (p *stubObject) Receive(msg *net.Message, from Channel) error {
+	// only calls and posts execute a method: a cancel or
+	// capability message addressed to a method is not a request.
+	if msg.Header.Type != net.Call && msg.Header.Type != net.Post {
+		return nil
+	}
 	from = p.impl.Tracer(msg, from)
 	switch msg.Header.Action {
 	case 0:
